@@ -28,6 +28,7 @@ STUB_TB = [
 
 PROPS = {
     "C08": {
+        "level": "translation_validation",
         "streams": _stub_streams(400, 8000),
         "rule": "descriptions: the C07 in-domain tables (9 base types x 12 wrappers x 6 positions, keyword field names, aliases incl. recursive ones through ?, [] and [string], alias of object) and random interfaces; per description 6 cases drawn from: reply (flags 0 / more with two replies and Continues / oneway / Upgrade stub), typed error reply, method not overridden, unknown method, undecodable parameters (absent, null, wrong JSON kind, int with fraction/exponent/out of int64 range, float out of range, string for bool ...), and a call as a non-Go peer would send it (other key order, other letter case, unknown members); values: int64 extremes, float extremes incl. max, smallest subnormal, -0, unicode / control / HTML characters in strings and map keys, nil and empty arrays and maps, absent and present optionals, nested structs, arbitrary JSON for object. Compared per case: the request frame, the arguments the implementation received (json.Marshal of the untagged Go values), the flags it saw, every reply frame, the values / typed error / standard error the client stub returned. non-trivial = a value of nesting depth at least 2",
         "trusted_base": STUB_TB,
@@ -37,6 +38,7 @@ PROPS = {
         ],
     },
     "C07": {
+        "level": "translation_validation",
         "streams": _gen_streams(1200, 12000),
         "rule": "bounded-exhaustive: 9 base types (bool int float string object alias enum struct empty-struct) x 12 wrapper prefixes up to depth 2 (?, [], [string] and their pairs) x 6 positions (method input, method output, error parameter, alias field, alias body, nested in struct/array/map); 65 Go keywords / predeclared / imported / generator-local identifiers as field names alone at every position and all together; typeless errors; dashes, upper case, xn-- in interface names; package names equal to imported packages and predeclared names; doc comments with backticks, CR, CRLF, quotes, unicode; member names equal to identifiers of the generated file and of varlink.Call; deliberately out-of-domain descriptions (enum-typed errors and inputs = crash path, non-struct in/out/error types, duplicate fields, unresolved references, reserved member names, direct recursion, non-UTF-8); plus random interfaces (0-3 aliases with forward and backward references, 1-3 methods, 0-2 errors, types up to depth 3, random layout, CRLF files). Every case: real generator twice, model text after go/format byte-equal, view equal; the first ~960 cases (quick) / all cases (thorough) are compiled with go build against /repo and linked into a probe that prints VarlinkGetName/VarlinkGetDescription. non-trivial = a description using at least 2 distinct type constructors",
         "trusted_base": GEN_TB,
